@@ -41,6 +41,8 @@ func inj(tag string, q byte) scen.Step {
 func handle(h int) scen.Step { return scen.Step{Op: "handle", H: h} }
 
 var workloads = map[string]workload{
+	// everything is asked for before the first connection exists, and nothing in the workload itself forces a reconnect
+	"presub": {Pre: []scen.Step{sub(ss("a", 1)), sub(ss("b", 2), ss("c", 0)), unsub("a")}, Steps: []scen.Step{pub(1, "p1"), sub(ss("d", 1))}},
 	// the broker stops reading while an acknowledgement is awaited and the reader goroutine is writing a PUBACK
 	"stall": {Pre: []scen.Step{handle(1)}, Steps: []scen.Step{pubw(1, "a"), pub(1, "b"), op("stallinject"), pub(2, "c"), pub(1, "d")}},
 	// established subscriptions, then a cut: with a session-less broker the next connection re-subscribes
